@@ -17,6 +17,7 @@ from fractions import Fraction
 from ..core import own_walk
 from ..model import AnalysisError
 from ..report import RuleResult, norm
+from . import guards as G
 from .tables import fold
 
 SCALE = 24          # every float16 value and every format value is an integer multiple of 2**-24
@@ -315,6 +316,12 @@ class MiniInterp:
         if isinstance(e, ast.BoolOp):
             vals = [self.ev(v) for v in e.values]
             return all(vals) if isinstance(e.op, ast.And) else any(vals)
+        if isinstance(e, ast.UnaryOp) and isinstance(e.op, ast.Not):
+            return not self.ev(e.operand)
+        if isinstance(e, ast.UnaryOp) and isinstance(e.op, ast.USub):
+            return -self.ev(e.operand)
+        if isinstance(e, ast.IfExp):
+            return self.ev(e.body) if self.ev(e.test) else self.ev(e.orelse)
         if isinstance(e, ast.Tuple):
             return tuple(self.ev(x) for x in e.elts)
         raise AnalysisError(f'{self.func.key}: expression not supported by the partial evaluator: {ast.unparse(e)[:60]}')
@@ -555,12 +562,12 @@ def _check_setters_getters(ctx, r, objs):
             sel = [n for n in own_walk(h.node) if isinstance(n, ast.If) and 'mxfp_overflow' in ast.unparse(n.test)]
             if len(sel) != 1:
                 raise AnalysisError(f'{h.key}: overflow-mode selection not recognised')
-            t = sel[0].test
+            t, sel_body, sel_else = G.pos_if(sel[0])
             if not (isinstance(t, ast.Compare) and isinstance(t.ops[0], ast.Eq) and isinstance(t.comparators[0], ast.Constant)):
                 raise AnalysisError(f'{h.key}: overflow-mode test not recognised')
             val = t.comparators[0].value
-            body_objs = _fmt_names_in(ast.Module(body=sel[0].body, type_ignores=[]), objs)
-            else_objs = _fmt_names_in(ast.Module(body=sel[0].orelse, type_ignores=[]), objs)
+            body_objs = _fmt_names_in(ast.Module(body=sel_body, type_ignores=[]), objs)
+            else_objs = _fmt_names_in(ast.Module(body=sel_else, type_ignores=[]), objs)
             ok = (body_objs and else_objs and all(objs[n]['mxfp_overflow'] == val for n in body_objs)
                   and all(objs[n]['mxfp_overflow'] != val for n in else_objs))
             if not ok:
